@@ -9,8 +9,8 @@ def run(ctx):
     from checks import c20_tags
 
     cov.update(c20_tags.tags_leg(ctx))
-    cov["rule"] = ("every generated program of size <= 4 (failures, duplicates, control forms, apply_tags) executed twice on one backend (second run = "
-                   "cached replays) under the default schedule, programs of size <= 3 under all schedules within the deviation bound; over ALL rows: every "
+    cov["rule"] = ("every generated program of size <= 4 (failures, duplicates, control forms, apply_tags) executed twice on one database (second run = "
+                   "cached replays; once on the same backend object and once on a new backend object, as a second process would) under the default schedule, programs of size <= 3 under all schedules within the deviation bound; over ALL rows: every "
                    "finished job has a call node whose hash equals hash(task, args, result, sorted recorded children); for jobs that really ran the recorded "
                    "children equal the finished child jobs' call nodes; (job, parent) rows and execution roots equal the jobs the scheduler created; "
                    "every value row deserializes to a value whose hash is its key. Tag placement: every subset of <= 3 (thorough 4) of 7 tag sources "
